@@ -47,6 +47,8 @@ type fw struct {
 	req                *http.Request // the request handed to ServeHTTP
 	ran                []int
 	bad                []string
+	gotResults         []string // results as handed to the ReturnHandler
+	wantResults        []string // results as the handlers returned them
 	id                 int
 	classes            map[string]bool
 }
@@ -148,6 +150,25 @@ func checkFramework(c FCase) (out evid.Outcome) {
 				s.check(k, h.Kind, ctx, w, r)
 				s.after(ctx, h)
 			})
+		case "ctxerr", "ctxerr-named":
+			// a handler with a result: func(Context) error as it is (a shape a
+			// framework may wrap on its own) and behind a named func type (always
+			// invoked reflectively); what comes back goes to the ReturnHandler, and
+			// must be the same in both cases: one valid value of type error
+			var e error
+			if k%2 == 1 {
+				e = fmt.Errorf("E%d", k)
+			}
+			body := func(ctx flamego.Context) error {
+				s.check(k, "ctx", ctx, nil, nil)
+				s.wantResults = append(s.wantResults, describeResults([]reflect.Value{reflect.ValueOf(&e).Elem()}))
+				return e
+			}
+			if h.Kind == "ctxerr" {
+				hs = append(hs, body)
+			} else {
+				hs = append(hs, namedCtxErr(body))
+			}
 		case "typed":
 			inT := []reflect.Type{tContext}
 			for _, tn := range h.In {
@@ -174,12 +195,18 @@ func checkFramework(c FCase) (out evid.Outcome) {
 			hs = append(hs, fn.Interface())
 		}
 	}
+	// results are collected by a ReturnHandler of our own (which writes nothing,
+	// so the chain goes on)
+	f.Map(flamego.ReturnHandler(func(_ flamego.Context, vals []reflect.Value) {
+		s.gotResults = append(s.gotResults, describeResults(vals))
+	}))
 	f.Get("/x", hs...)
 
 	for reqN := 0; reqN < c.Requests; reqN++ {
 		out.Sub++
 		s.mReq = &mscope{}
 		s.ran, s.bad = nil, nil
+		s.gotResults, s.wantResults = nil, nil
 		s.ctx, s.w, s.r = nil, nil, nil
 		s.req = rt.NewRequest("GET", "/x", nil)
 		var escaped interface{}
@@ -190,6 +217,9 @@ func checkFramework(c FCase) (out evid.Outcome) {
 		desc := fmt.Sprintf("request %d of %s", reqN, js(c))
 		if len(s.bad) > 0 {
 			return ffail(out, s.classes, "framework-value", "%s; %s", s.bad[0], desc)
+		}
+		if fmt.Sprint(s.gotResults) != fmt.Sprint(s.wantResults) {
+			return ffail(out, s.classes, "framework-results", "results handed to the ReturnHandler %v, the handlers returned %v; %s", s.gotResults, s.wantResults, desc)
 		}
 		// static expectation: which handlers run, and where invocation must fail
 		avail := map[reflect.Type]bool{}
@@ -289,7 +319,7 @@ func genFCase(t *rapid.T) FCase {
 	}
 	c.Outer = pick("outer", 3)
 	c.App = pick("app", 3)
-	kinds := []string{"ctx", "http", "handlerfunc", "refl", "typed", "typed", "ctx"}
+	kinds := []string{"ctx", "http", "handlerfunc", "refl", "typed", "typed", "ctx", "ctxerr", "ctxerr-named"}
 	for i, n := 0, rapid.IntRange(1, 6).Draw(t, "nh"); i < n; i++ {
 		h := FH{Kind: kinds[rapid.IntRange(0, len(kinds)-1).Draw(t, "kind")]}
 		if h.Kind == "typed" {
@@ -351,4 +381,22 @@ func stripQuotedSignatures(msg string) string {
 		}
 		out = out[:i] + "<func>" + out[j:]
 	}
+}
+
+type namedCtxErr func(flamego.Context) error
+
+// describeResults renders what a ReturnHandler can observe of the results.
+func describeResults(vals []reflect.Value) string {
+	var parts []string
+	for _, v := range vals {
+		switch {
+		case !v.IsValid():
+			parts = append(parts, "INVALID")
+		case v.Kind() == reflect.Interface && v.IsNil():
+			parts = append(parts, v.Type().String()+":nil")
+		default:
+			parts = append(parts, fmt.Sprintf("%s:%v", v.Type(), v.Interface()))
+		}
+	}
+	return "(" + strings.Join(parts, ", ") + ")"
 }
